@@ -7,6 +7,7 @@ from typing import Any, Iterable, List, Optional
 
 from ..engine.flow import Automaton, MayRaise, Runner, State, violation
 from ..engine.match import Spec, loop_doms, require_return, residual
+from ..engine.repo import dotted
 from ..engine.report import Check
 from ..engine.terms import C, Term, conjuncts, lin_add, lin_parts, mentions, mk_cmpz, show, subterms
 from ..engine.walker import MUTATORS, Event
@@ -141,6 +142,33 @@ def r14_2_3(ck: Check) -> None:
     else:
         ck.violated("R14.3", construct, "the success condition is %s" % "; ".join(show(c)[:120] for c in enough) or "absent", ret.loc)
         return
+    # the running sum and the input list move together: one `+=` on the sum, sitting next to the one place an input is added
+    acc_name = [a for a in lin_parts(col)[0] if a[0] == "lv"][0][1]
+    others = [e for e in summ.events if e.kind == "call" and e.parts and e.parts[0][0] == "a" and e.parts[0][1] == inputs_list
+              and e.parts[0][2] in MUTATORS and e is not ins[0]]
+    construct = "create_spend_transaction: the collected amount grows only by U[r].value, exactly when input r is added; inputs are added nowhere else"
+    problems = []
+    if others:
+        problems.append("the input list is also changed by %s" % "; ".join(show(e.term)[:80] for e in others))
+    scope_nodes = [summ.fi.node] + [f.node for f in ck.repo.all_functions() if ck.walker.transparent(f.qualname) and f.module is summ.fi.module]
+    augs = [(b, n) for root in scope_nodes for b in ast.walk(root) for fld in ("body", "orelse", "finalbody") for n in (getattr(b, fld, None) or [])
+            if isinstance(b, ast.AST) and isinstance(getattr(b, fld, None), list) and isinstance(n, ast.AugAssign)
+            and isinstance(n.target, ast.Name) and n.target.id == acc_name]
+    if len(augs) != 1 or not isinstance(augs[0][1].op, ast.Add):
+        problems.append("%d updates of %s (one `+=` expected)" % (len(augs), acc_name))
+    else:
+        parent = augs[0][0]
+        sibs = [x for fld in ("body", "orelse", "finalbody") for x in (getattr(parent, fld, None) or []) if isinstance(getattr(parent, fld, None), list)
+                and augs[0][1] in getattr(parent, fld)]
+        adds_input = [x for x in sibs if isinstance(x, ast.Expr) and isinstance(x.value, ast.Call) and isinstance(x.value.func, ast.Attribute)
+                      and x.value.func.attr == "append" and x.value.args and isinstance(x.value.args[0], ast.Call)
+                      and (dotted(x.value.args[0].func) or "").split(".")[-1] == "Input"]
+        if len(adds_input) != 1:
+            problems.append("the `%s +=` at line %d is not in the same block as the statement that adds the input" % (acc_name, augs[0][1].lineno))
+    if problems:
+        ck.violated("R14.3", construct, "; ".join(problems) + " — the amount the change is computed from is then not the sum of the inputs", summ.fi.loc)
+    else:
+        ck.ok("R14.3", construct, "", ins[0].loc)
     first = sp.term("Output(value, opk)")
     tx_arg = signs[0].term[2][2] if len(signs[0].term[2]) == 3 else None
     construct = "create_spend_transaction: first output pays exactly `value` to the recipient; the transaction signed is Transaction(inputs, outputs)"
